@@ -163,6 +163,59 @@ def requests(seed=1, size="quick"):
         out.append(("uses revolve %s 2 0" % st, lambda st=st: uses(lambda: cs.Revolve(5, 2), st)))
         out.append(("uses revolve %s 2 -" % st, lambda st=st: uses(lambda: cs.DiskRevolve(5, 2), st)))
         out.append(("uses revolve %s 1 2" % st, lambda st=st: uses(lambda: cs.HRevolve(5, 1, 2), st)))
+    def opt(v):
+        return "none" if v is None else "(some %d)" % v
+
+    def minit(n, sn, st):
+        try:
+            o = cs.MixedCheckpointSchedule(n, sn, storage=cs.StorageType[st])
+            return "%d %d %s %s %d %s" % (o._n, o._r, opt(o._max_n), "1" if o._exhausted else "0", o._snapshots, o._storage.name)
+        except Exception as e:   # noqa: BLE001
+            return "raise:" + type(e).__name__
+    for n in (-1, 0, 1, 2, 3, 7):
+        for sn in (-1, 0, 1, 2, 6, 9):
+            for st in ("RAM", "DISK", "WORK", "NONE"):
+                out.append(("mixedInit %d %d %s" % (n, sn, st), lambda n=n, sn=sn, st=st: minit(n, sn, st)))
+
+    def tinit(p, b, st, tr):
+        try:
+            o = cs.TwoLevelCheckpointSchedule(p, b, binomial_storage=cs.StorageType[st], binomial_trajectory=tr)
+            return "%d %d %s %d %d %s %s" % (o._n, o._r, opt(o._max_n), o._period, o._binomial_snapshots,
+                                             o._binomial_storage.name, o._trajectory)
+        except Exception as e:   # noqa: BLE001
+            return "raise:" + type(e).__name__
+    for p in (-1, 0, 1, 4):
+        for b in (-1, 0, 3):
+            for st in ("RAM", "DISK", "WORK", "NONE"):
+                out.append(("twoLevelInit %d %d %s revolve" % (p, b, st), lambda p=p, b=b, st=st: tinit(p, b, st, "revolve")))
+
+    def msinit(n, ram, disk, tr):
+        try:
+            o = cs.MultistageCheckpointSchedule(n, ram, disk, trajectory=tr)
+            return "%d %d %s %d %d %s %s %s" % (o._n, o._r, opt(o._max_n), o._snapshots_in_ram, o._snapshots_on_disk,
+                                                ",".join(x.name for x in o._storage), "1" if o._exhausted else "0", o._trajectory)
+        except Exception as e:   # noqa: BLE001
+            return "raise:" + type(e).__name__
+    for n in (-1, 0, 1, 2, 5, 9):
+        for ram in (0, 1, 3, 12):
+            for disk in (0, 2, 12):
+                for tr in ("maximum", "revolve"):
+                    stor = ""
+                    try:
+                        a, b2 = min(ram, n - 1), min(disk, n - 1)
+                        if a > 0 and b2 > 0:
+                            stor = ",".join(x.name for x in multistage.allocate_snapshots(n, a, b2, trajectory=tr)[1])
+                    except Exception:   # noqa: BLE001
+                        continue
+                    out.append(("multistageInit %d %d %d %s %s" % (n, ram, disk, tr, stor),
+                                lambda n=n, ram=ram, disk=disk, tr=tr: msinit(n, ram, disk, tr)))
+    for k in ("F", "R"):
+        for a, b in ((0, 5), (3, 4), (2, 2), (0, 2 ** 63 - 1)):
+            mk = (lambda a=a, b=b: cs.Forward(a, b, False, False, cs.StorageType.WORK)) if k == "F" else \
+                 (lambda a=a, b=b: cs.Reverse(b, a, True))
+            out.append(("len %s %d %d" % (k, a, b), lambda mk=mk: _val(lambda: len(mk()) if True else 0)))
+            for st in (a - 1, a, b - 1, b):
+                out.append(("contains %s %d %d %d" % (k, a, b, st), lambda mk=mk, st=st: _val(lambda: int(st in mk()))))
     # generators
     for N in range(1, 30 if big else 14):
         for ram in range(0, 4):
